@@ -1,3 +1,4 @@
+From CG Require Import Model.IcalSrc.
 From CG Require Import Model.RecSrc.
 (* GENERATED on every run by harness/translate/pysrc.py from the Python sources of the tree
    under test — do not edit.  Each definition is the translation of one function's source text;
@@ -3202,3 +3203,299 @@ Definition g_rp_init {DT : Type} {ZONE : Type} {TZ : Type} {IC : Type} {MD : Typ
   let part6_ := r7_ in
   let self__epoch := part6_ in
   (RDone (self_freq, self_interval, self_duration_seconds, self_exdates, self_zone, self_anchor_timestamp, self_start_seconds, self_day, self_week, self_day_of_month, self_month, self_bysetpos, self_byweekno, self_byyearday, self_byhour, self_byminute, self_bysecond, self_wkst, self_rrule_kwargs, self__epoch))))))))).
+
+(* calgebra/ical.py: _dt_to_timestamp *)
+Definition g_ical_dt_to_timestamp {DV : Type} (dv_is_datetime : DV -> bool) (dv_timestamp : DV -> Z) (dv_midnight_utc : DV -> DV) (dt : DV) : Z :=
+  if (dv_is_datetime dt) then
+    (dv_timestamp dt)
+  else
+    let dt_full := (dv_midnight_utc dt) in
+    (dv_timestamp dt_full).
+
+(* calgebra/ical.py: _phase_base *)
+Definition g_ical_phase_base {DV : Type} (dv_ymd : Z -> Z -> Z -> DV) (freq : freq) : DV :=
+  (if (freq_eqb freq Weekly) then (dv_ymd 1969 12 29) else (dv_ymd 1970 1 1)).
+
+(* calgebra/ical.py: _parse_vevent *)
+Definition g_ical_parse_times {VE : Type} {DP : Type} {UP : Type} {DV : Type} {TD : Type} (ve_get_dtstart : VE -> option DP) (ve_get_dtend : VE -> option DP) (ve_get_duration : VE -> option UP) (dp_dt : DP -> DV) (up_dt : UP -> TD) (dv_is_datetime : DV -> bool) (dv_timestamp : DV -> Z) (dv_midnight_utc : DV -> DV) (dv_add : DV -> TD -> DV) (td_of_days : Z -> TD) (dv_same_tzinfo : DV -> DV -> bool) (dv_naive : DV -> DV) (dv_sub : DV -> DV -> TD) (td_days : TD -> Z) (td_seconds : TD -> Z) (td_geb : TD -> TD -> bool) (td_sub : TD -> TD -> TD) (td_total_seconds : TD -> Z) (component : VE) : res ((DV * bool * Z * Z * Z)) :=
+  let dtstart_prop := (ve_get_dtstart component) in
+  let dtend_prop := (ve_get_dtend component) in
+  let duration_prop := (ve_get_duration component) in
+  match dtstart_prop with
+  | Some dtstart_prop =>
+    let start_dt := (dp_dt dtstart_prop) in
+    let is_all_day := (negb (dv_is_datetime start_dt)) in
+    let end_dt :=
+      match dtend_prop with
+      | Some dtend_prop =>
+        let end_dt := (dp_dt dtend_prop) in
+        end_dt
+      | None =>
+        match duration_prop with
+        | Some duration_prop =>
+          let end_dt := (dv_add start_dt (up_dt duration_prop)) in
+          end_dt
+        | None =>
+          if is_all_day then
+            let end_dt := (dv_add start_dt (td_of_days 1)) in
+            end_dt
+          else
+            let end_dt := start_dt in
+            end_dt
+        end
+      end in
+    let start_ts := (g_ical_dt_to_timestamp dv_is_datetime dv_timestamp dv_midnight_utc start_dt) in
+    let end_ts := (g_ical_dt_to_timestamp dv_is_datetime dv_timestamp dv_midnight_utc end_dt) in
+    let duration_seconds := (end_ts - start_ts) in
+    let duration_seconds :=
+      if ((dv_is_datetime start_dt) && (dv_is_datetime end_dt) && (dv_same_tzinfo start_dt end_dt)) then
+        let wall := (dv_sub (dv_naive end_dt) (dv_naive start_dt)) in
+        let duration_seconds := (((td_days wall) * 86400) + (td_seconds wall)) in
+        duration_seconds
+      else
+        duration_seconds in
+    let end_ts :=
+      match duration_prop with
+      | Some duration_prop =>
+        match dtend_prop with
+        | Some dtend_prop =>
+          end_ts
+        | None =>
+          if (dv_is_datetime start_dt) then
+            let dur := (up_dt duration_prop) in
+            let days := (td_of_days (td_days dur)) in
+            if (td_geb dur (td_of_days 0)) then
+              let end_ts := ((g_ical_dt_to_timestamp dv_is_datetime dv_timestamp dv_midnight_utc (dv_add start_dt days)) + (td_total_seconds (td_sub dur days))) in
+              end_ts
+            else
+              end_ts
+          else
+            end_ts
+        end
+      | None =>
+        end_ts
+      end in
+    (RDone (start_dt, is_all_day, start_ts, end_ts, duration_seconds))
+  | None =>
+    (RRaise ValueError)
+  end.
+
+(* calgebra/ical.py: _parse_vevent *)
+Definition g_ical_parse_start {DV : Type} {DATE : Type} (dv_is_datetime : DV -> bool) (dv_midnight_naive : DV -> DV) (dv_date : DV -> DATE) (date_eqb : DATE -> DATE -> bool) (dv_hour : DV -> Z) (dv_minute : DV -> Z) (dv_second : DV -> Z) (dv_ymd : Z -> Z -> Z -> DV) (start_dt : DV) (freq : freq) : (pstart DV) :=
+  let pattern_start :=
+    if (dv_is_datetime start_dt) then
+      let pattern_start := start_dt in
+      pattern_start
+    else
+      let pattern_start := (dv_midnight_naive start_dt) in
+      pattern_start in
+  if (date_eqb (dv_date pattern_start) (dv_date (g_ical_phase_base dv_ymd freq))) then
+    let pattern_start := ((((dv_hour pattern_start) * 3600) + ((dv_minute pattern_start) * 60)) + (dv_second pattern_start)) in
+    (PsInt pattern_start)
+  else
+    (PsDt pattern_start).
+
+(* calgebra/ical.py: _parse_vevent *)
+Definition g_ical_parse_tz {DV : Type} {TZ : Type} {TZNAME : Type} (dv_is_datetime : DV -> bool) (dv_tzinfo : DV -> option TZ) (tz_name : TZ -> TZNAME) (tzname_of_none : TZNAME) (start_dt : DV) : res (option TZNAME) :=
+  let tz := None in
+  if ((dv_is_datetime start_dt) && (negb (is_none (dv_tzinfo start_dt)))) then
+    let tz := (Some (match dv_tzinfo start_dt with Some z_ => tz_name z_ | None => tzname_of_none end)) in
+    (RDone tz)
+  else
+    (RDone tz).
+
+(* calgebra/ical.py: _parse_vevent *)
+Definition g_ical_parse_exdates {VE : Type} {EXP : Type} {EXVAL : Type} {DV : Type} (ve_has_exdate : VE -> bool) (ve_get_exdate : VE -> exv EXP) (exp_dts : EXP -> list EXVAL) (exval_dt : EXVAL -> DV) (dv_is_datetime : DV -> bool) (dv_timestamp : DV -> Z) (dv_midnight_utc : DV -> DV) (component : VE) : list Z :=
+  let exdates := (@nil Z) in
+  if (ve_has_exdate component) then
+    let exdate_props := (ve_get_exdate component) in
+    match exdate_props with
+    | ExOne exdate_props_p =>
+      let exdate_props := [exdate_props_p] in
+      iter_for
+        (fun exdates prop =>
+          let exdates := (exdates ++ (map (fun value => (g_ical_dt_to_timestamp dv_is_datetime dv_timestamp dv_midnight_utc (exval_dt value))) (exp_dts prop))) in
+          (SCont exdates))
+        (fun exdates =>
+          exdates)
+        exdates exdate_props
+    | ExList exdate_props_l =>
+      iter_for
+        (fun exdates prop =>
+          let exdates := (exdates ++ (map (fun value => (g_ical_dt_to_timestamp dv_is_datetime dv_timestamp dv_midnight_utc (exval_dt value))) (exp_dts prop))) in
+          (SCont exdates))
+        (fun exdates =>
+          exdates)
+        exdates exdate_props_l
+    end
+  else
+    exdates.
+
+(* calgebra/ical.py: _interval_to_vevent *)
+Definition g_ical_interval_to_vevent {ITEM : Type} {RP : Type} {IVLX : Type} {MD : Type} {ZN : Type} {DV : Type} {TD : Type} {STR : Type} {VR : Type} {TXT : Type} {EV : Type} (item_is_pattern : ITEM -> bool) (item_as_pattern : ITEM -> RP) (item_as_interval : ITEM -> IVLX) (rp_metadata : RP -> MD) (rp_zone_or_utc : RP -> ZN) (rp_anchor_timestamp : RP -> option Z) (rp_start_seconds : RP -> Z) (rp_duration_seconds : RP -> Z) (rp_freq : RP -> freq) (rp_exdates : RP -> list Z) (rp_rrule_string : RP -> STR) (vrecur_from_ical : STR -> res VR) (anchor_wall_clock : Z -> Z -> ZN -> DV) (dv_ymd : Z -> Z -> Z -> DV) (dv_with_zone : DV -> ZN -> DV) (dv_add : DV -> TD -> DV) (td_of_seconds : Z -> TD) (md_is_all_day : MD -> bool) (zone_is_utc : ZN -> bool) (dv_to_date : DV -> DV) (dv_fromtimestamp : Z -> ZN -> DV) (zn_utc : ZN) (ivl_vars : IVLX -> MD) (ivl_start : IVLX -> option Z) (ivl_end : IVLX -> option Z) (ivl_is_all_day : IVLX -> MD -> bool) (md_text : MD -> Z -> option TXT) (md_empty : MD) (ev_empty : EV) (ev_add_dtstart : DV -> EV -> EV) (ev_add_dtend : DV -> EV -> EV) (ev_add_duration : TD -> EV -> EV) (ev_add_rrule : VR -> EV -> EV) (ev_add_exdate : DV -> EV -> EV) (ev_add_text : Z -> TXT -> EV -> EV) (item : ITEM) : res EV :=
+  let event := ev_empty in
+  let is_all_day := false in
+  let meta := md_empty in
+  if (item_is_pattern item) then
+    let rp := (item_as_pattern item) in
+    let meta := (rp_metadata rp) in
+    let zone := (rp_zone_or_utc rp) in
+    let dtstart :=
+      if (negb (is_none (rp_anchor_timestamp rp))) then
+        let dtstart := (anchor_wall_clock (ozd (rp_anchor_timestamp rp)) (rp_start_seconds rp) zone) in
+        dtstart
+      else
+        let dtstart := (dv_add (dv_with_zone (g_ical_phase_base dv_ymd (rp_freq rp)) zone) (td_of_seconds (rp_start_seconds rp))) in
+        dtstart in
+    let is_all_day := ((md_is_all_day meta) && (zone_is_utc zone) && ((rp_start_seconds rp) =? 0) && (((rp_duration_seconds rp) mod 86400) =? 0)) in
+    let event := (ev_add_dtstart (if is_all_day then (dv_to_date dtstart) else dtstart) event) in
+    let event := (ev_add_duration (td_of_seconds (rp_duration_seconds rp)) event) in
+    let rrule_str := (rp_rrule_string rp) in
+    res_bind (vrecur_from_ical rrule_str) (fun r1_ =>
+    let event := (ev_add_rrule r1_ event) in
+    if (nonempty (rp_exdates rp)) then
+      iter_for
+        (fun event mts =>
+          let mdt := (dv_fromtimestamp mts (rp_zone_or_utc rp)) in
+          let event := (ev_add_exdate (if is_all_day then (dv_to_date mdt) else mdt) event) in
+          (SCont event))
+        (fun event =>
+          let val := (md_text meta 0) in
+          let event :=
+            match val with
+            | Some val =>
+              let event := (ev_add_text 0 val event) in
+              event
+            | None =>
+              event
+            end in
+          let val := (md_text meta 1) in
+          let event :=
+            match val with
+            | Some val =>
+              let event := (ev_add_text 1 val event) in
+              event
+            | None =>
+              event
+            end in
+          let val := (md_text meta 2) in
+          let event :=
+            match val with
+            | Some val =>
+              let event := (ev_add_text 2 val event) in
+              event
+            | None =>
+              event
+            end in
+          let val := (md_text meta 3) in
+          let event :=
+            match val with
+            | Some val =>
+              let event := (ev_add_text 3 val event) in
+              event
+            | None =>
+              event
+            end in
+          (RDone event))
+        event (rp_exdates rp)
+    else
+      let val := (md_text meta 0) in
+      let event :=
+        match val with
+        | Some val =>
+          let event := (ev_add_text 0 val event) in
+          event
+        | None =>
+          event
+        end in
+      let val := (md_text meta 1) in
+      let event :=
+        match val with
+        | Some val =>
+          let event := (ev_add_text 1 val event) in
+          event
+        | None =>
+          event
+        end in
+      let val := (md_text meta 2) in
+      let event :=
+        match val with
+        | Some val =>
+          let event := (ev_add_text 2 val event) in
+          event
+        | None =>
+          event
+        end in
+      let val := (md_text meta 3) in
+      let event :=
+        match val with
+        | Some val =>
+          let event := (ev_add_text 3 val event) in
+          event
+        | None =>
+          event
+        end in
+      (RDone event))
+  else
+    let ivl_ := (item_as_interval item) in
+    let meta := (ivl_vars ivl_) in
+    if (is_none (ivl_start ivl_)) then
+      (RRaise ValueError)
+    else
+      let is_all_day := (ivl_is_all_day ivl_ meta) in
+      let dtstart := (dv_fromtimestamp (ozd (ivl_start ivl_)) zn_utc) in
+      let event :=
+        if is_all_day then
+          let event := (ev_add_dtstart (dv_to_date dtstart) event) in
+          event
+        else
+          let event := (ev_add_dtstart dtstart event) in
+          event in
+      let event :=
+        if (negb (is_none (ivl_end ivl_))) then
+          let dtend := (dv_fromtimestamp (ozd (ivl_end ivl_)) zn_utc) in
+          if is_all_day then
+            let event := (ev_add_dtend (dv_to_date dtend) event) in
+            event
+          else
+            let event := (ev_add_dtend dtend event) in
+            event
+        else
+          event in
+      let val := (md_text meta 0) in
+      let event :=
+        match val with
+        | Some val =>
+          let event := (ev_add_text 0 val event) in
+          event
+        | None =>
+          event
+        end in
+      let val := (md_text meta 1) in
+      let event :=
+        match val with
+        | Some val =>
+          let event := (ev_add_text 1 val event) in
+          event
+        | None =>
+          event
+        end in
+      let val := (md_text meta 2) in
+      let event :=
+        match val with
+        | Some val =>
+          let event := (ev_add_text 2 val event) in
+          event
+        | None =>
+          event
+        end in
+      let val := (md_text meta 3) in
+      let event :=
+        match val with
+        | Some val =>
+          let event := (ev_add_text 3 val event) in
+          event
+        | None =>
+          event
+        end in
+      (RDone event).
